@@ -167,6 +167,10 @@ pub fn wrong_expansions(p: &str) -> BTreeSet<String> {
                 let (inner, last) = rest.split_at(n + 1);
                 for alt in inner[1..inner.len() - 1].split(',') {
                     let r = format!("{}{}{}", first, alt, last);
+                    // a half-expanded string (one group substituted, others left) is a decoy too
+                    if d == 0 && r.contains(['{', '}']) && out.len() < 200 {
+                        out.insert(r.clone());
+                    }
                     if seen.insert(r.clone()) {
                         work.push((r, d + 1));
                     }
